@@ -60,6 +60,12 @@ def panic_sites(body, local_panickers=()):
             d = kind
             if kind == "Overflow":
                 d = "Overflow(%s)" % t["msg"]["op"]
+                # the P-ADD axiom (lengths and cursors stay below isize::MAX) speaks about usize arithmetic only: an overflow check on
+                # any other integer type (seed c04-p: `sum += hasher.finish()` on u64 hash values) is an ordinary panic edge
+                cl_ = (t.get("cond") or {}).get("place", {}).get("local")
+                cty = body["locals"][cl_]["ty"] if cl_ is not None and cl_ < len(body["locals"]) else "?"
+                if not cty.replace(" ", "").startswith("(usize,"):
+                    d = "Overflow(%s:%s)" % (t["msg"]["op"], cty.strip("()").split(",")[0].strip())
             out.append(("assert", d, bi, t))
         elif t["k"] == "Call":
             fn = mir.callee_fn(t)
